@@ -15,7 +15,7 @@ import sys
 import time
 from concurrent.futures import ThreadPoolExecutor
 
-from . import core, env
+from . import core, cover, env
 
 
 def load_findings():
@@ -127,6 +127,7 @@ def main(argv=None):
     viol_count = cases_run = 0
     viol_sigs = {}
     libs = set()
+    lines_hit = {}
     for o in outs:
         r = o["res"]
         if r is None:
@@ -137,6 +138,8 @@ def main(argv=None):
         if r["n_errors"]:
             inconclusive.append("harness errors in shard %s/%s: %s" % (o["mode"], o["shard"], r["errors"][0]["exc"] + " :: " + r["errors"][0]["tb"][-400:].replace("\n", " | ")))
         libs.add(os.path.dirname(r.get("uxarray_file") or "?"))
+        for fn, ls in (r.get("lines") or {}).items():
+            lines_hit.setdefault(fn, set()).update(ls)
         cases_run += r["cases_run"]
         viol_count += r["viol_count"]
         for k, v in r["clause_evals"].items():
@@ -247,6 +250,8 @@ def main(argv=None):
                 "note_sizes": {k: len(v) for k, v in notes.items()},
                 "modes": [m["name"] for m in modes],
                 "library_under_test": sorted(libs),
+                "anchor_lines": cover.summarize(prop, lines_hit, repo=os.path.dirname(sorted(libs)[0]) if libs and sorted(libs)[0] != "?" else None),
+                "library_lines_executed": {fn: len(ls) for fn, ls in sorted(lines_hit.items())},
                 "shards": nshards,
                 "verdict": verdict,
                 "violation_signatures": {k: viol_sigs[k] for k in sorted(viol_sigs)[:200]},
